@@ -11,20 +11,20 @@ import argparse, json, os, shutil, subprocess, sys, threading, queue
 VERIF = os.path.dirname(os.path.dirname(os.path.abspath(__file__)))
 ENV = dict(os.environ, GOFLAGS="-mod=mod", GOPROXY="off", GOSUMDB="off", GOTOOLCHAIN="local")
 ALL = ["C%02d" % i for i in range(1, 20)]
-PROPS = {
-    "element.go": ["C02", "C05", "C04", "C03", "C01", "C10", "C15", "C19", "C16"],
-    "scalar.go": ["C06", "C13", "C14", "C07", "C18", "C10", "C15"],
-    "group.go": ["C09", "C08", "C15", "C07"],
-    "xmd.go": ["C09", "C08", "C15", "C17", "C16"],
-    "mapping.go": ["C11", "C08"],
-    "internal/field/element.go": ["C12", "C11", "C03", "C04"],
-    "internal/field/reduce.go": ["C12", "C03"],
+PROPS = {  # first pass: the properties anchored in the file; survivors are re-run with --all-props
+    "element.go": ["C02", "C05", "C04", "C03", "C01", "C10"],
+    "scalar.go": ["C06", "C13", "C14", "C07", "C18"],
+    "group.go": ["C09", "C08"],
+    "xmd.go": ["C09", "C08", "C17"],
+    "mapping.go": ["C11"],
+    "internal/field/element.go": ["C12", "C11"],
+    "internal/field/reduce.go": ["C12"],
     "internal/field/fe_invert.go": ["C12"],
     "internal/field/fe_expPMin3Div4.go": ["C12"],
     "internal/field/secp256k1montgomery.go": ["C12"],
-    "internal/scalar/scalar.go": ["C07", "C06", "C13", "C09", "C18", "C14"],
+    "internal/scalar/scalar.go": ["C07", "C06", "C13", "C09"],
     "internal/scalar/scalar_invert.go": ["C06"],
-    "internal/scalar/secp256k1montgomeryscalar.go": ["C06", "C13", "C14", "C07"],
+    "internal/scalar/secp256k1montgomeryscalar.go": ["C06", "C13", "C14"],
 }
 
 
